@@ -437,6 +437,8 @@ class Exec:
     INIT_OPS = {'Alloc', 'Store', 'MakeMap', 'MapUpdate', 'MakeSlice', 'Slice', 'IndexAddr', 'FieldAddr', 'Convert', 'ChangeType', 'MakeInterface',
                 'ChangeInterface', 'BinOp', 'UnOp', 'MakeClosure', 'Field', 'Index'}
 
+    INIT_CALLS = {'regexp.MustCompile', 'errors.New'}
+
     def partial_init(self, st, pkg):
         """evaluate the side-effect-free part of a package initialiser (composite literals, tables of constants) so that package-level
         tables are concrete instead of symbolic; anything that depends on a call stays lazily symbolic"""
@@ -450,6 +452,14 @@ class Exec:
         stored = set()
         for b in fn['blocks']:
             for ins in b['instrs']:
+                if ins['op'] == 'Call' and ins['call'].get('mode') == 'static' and ins['call'].get('callee') in self.INIT_CALLS:
+                    try:
+                        stub = self.find_stub(ins['call']['callee'])
+                        if stub is not None:
+                            fr.regs[ins['reg']] = stub(self, st, [self.val(st, fr, a) for a in ins['call']['args']], ins)
+                    except Exception:
+                        pass
+                    continue
                 if ins['op'] not in self.INIT_OPS: continue
                 try:
                     if ins['op'] == 'Store':
